@@ -41,7 +41,7 @@ Proof.
   all: rewrite !(src_checkable_is_state_ok_eq eq_refl).
   all: generalize (is_ok (c_kind b) new_state) (is_ok (c_kind b) (i_old_raw i)) (i_hard_change i) (c_volatile b); intros okn oko hc vol.
   all: destruct (i_old_type i), (s_type s'); cbn [stype_eqb xst_num]; unfold f_StateTypeSoft, f_StateTypeHard.
-  all: destruct okn, oko, hc, vol; reflexivity.
+  all: destruct okn, oko, hc, vol, nreach, in_dt, acked; reflexivity.
 Qed.
 
 (* ------------------------------------------------------------------ (2) flapping start/end, immediate-vs-stash, stash block *)
